@@ -252,10 +252,31 @@ TEMP_COLS = ("t_k", "t_from_k", "t_to_k", "t_outlet_k")
 MASS_COLS = ("mdot_from_kg_per_s", "mdot_to_kg_per_s", "mdot_kg_per_s", "mdot_flow_kg_per_s")
 
 
-def compare(r0, r1, expect, atol=1e-8, tol_m=1e-10):
-    """r0, r1: drive.snapshot_results of the original and the rewritten net.  Only the unknowns of the
-    calculation are compared (pressures, mass flows, temperatures): every other result column is a function of
-    those.  Returns a list of (table, column, label, original, rewritten)."""
+# how a column behaves:  kind  p: pressure (shifted by p_shift), dp: pressure difference, t: temperature, m: mass flow,
+#                              d: derived from the flow of the row (v, vdot, Re, lambda, normfactor, friction loss), q: heat
+KIND = {"p_bar": "p", "p_from_bar": "p", "p_to_bar": "p", "deltap_bar": "dp",
+        "t_k": "t", "t_from_k": "t", "t_to_k": "t", "t_outlet_k": "t", "deltat_k": "t",
+        "mdot_kg_per_s": "m", "mdot_from_kg_per_s": "m", "mdot_to_kg_per_s": "m", "mdot_flow_kg_per_s": "m",
+        "qext_w": "q", "compr_power_mw": "q"}
+# from / to pairs: (from column, to column, sign of the exchanged value for a reversed row)
+PAIRS = [("p_from_bar", "p_to_bar", 1.0), ("t_from_k", "t_to_k", 1.0), ("mdot_from_kg_per_s", "mdot_to_kg_per_s", 1.0),
+         ("v_from_m_per_s", "v_to_m_per_s", -1.0), ("normfactor_from", "normfactor_to", 1.0)]
+# single columns that change sign with the declared direction (dp_friction_loss_bar: liquids only, gases report |.|)
+ODD = ("v_mean_m_per_s", "vdot_m3_per_s", "vdot_norm_m3_per_s")
+# per-section quantities reported as the mean over the sections of a pipe
+MEAN_COLS = ("v_mean_m_per_s", "vdot_m3_per_s", "vdot_norm_m3_per_s", "reynolds", "lambda")
+DPF = "dp_friction_loss_bar"
+
+
+def compare(r0, r1, expect, atol=1e-8, tol_m=1e-10, gas=False, sections0=None, sections1=None):
+    """r0, r1: drive.snapshot_results of the original and the rewritten net.  Every numeric result column is compared.
+    Tolerances are derived from the solver tolerances:
+      pressures 1e-8; mass flows 1e-8 + stalled flows; temperatures 1e-8 + 40 tol_m / min|m|;
+      a column X that is a function of the row's flow m (v, vdot, Re, lambda, normfactor, friction loss) moves by at most
+      |X| dm/|m| when m moves by dm (X ~ m, lambda ~ c + 64/Re, dp ~ m|m|: factor 2), so |X|(3 atol_m/|m| + 1e-7); rows
+      with |m| < 1e-6 are not compared on such columns.
+    sections0 / sections1: {pipe label: sections} of the two descriptions (friction loss of a multi-section pipe).
+    Returns a list of (table, column, label, original, rewritten)."""
     diffs = []
     atol_m = atol + 4.0 * stalled_flow(r0, r1)
     # outlet temperature of a cooling branch: T_out = T_ext + (T_in - T_ext) exp(-beta/|m|), so
@@ -267,41 +288,113 @@ def compare(r0, r1, expect, atol=1e-8, tol_m=1e-10):
     skip = expect.get("skip_tables", set())
     row_map = expect.get("row_map", {})
     series = expect.get("series", {})
+    sections0, sections1 = sections0 or {}, sections1 or {}
+
+    # rounding of the per-element sums: _sum_by_group_sorted forms cumsum(values)[last of group] - cumsum[last of previous
+    # group], so every per-pipe mean carries an absolute error of about eps * (sum of |value| over ALL sections of the
+    # table) - a pipe with a stalled flow (lambda = 64/Re ~ 1e8) costs every other pipe digits.  Derived allowance:
+    def cumsum_bound(r, secs):
+        t = r.get("res_pipe")
+        out = {}
+        if t:
+            for col in MEAN_COLS + (DPF,):
+                if col in t["cols"]:
+                    out[col] = 8 * 2.2e-16 * sum(abs(v) * secs.get(l, 1) for l, v in zip(t["index"], t["cols"][col])
+                                                 if v is not None)
+        return out
+    b0, b1 = cumsum_bound(r0, sections0), cumsum_bound(r1, sections1)
+    round_pipe = {col: max(b0.get(col, 0.0), b1.get(col, 0.0)) for col in set(b0) | set(b1)}
+
+    def tol_of(col, x, m_row):
+        k = KIND.get(col, "d")
+        if k in ("p", "dp"):
+            return atol
+        if k == "t":
+            return atol_t
+        if k == "m":
+            return atol_m
+        if k == "q":
+            return 1e-6 * abs(x) + 4200.0 * (atol_t * abs(m_row or 1.0) + 100.0 * atol_m)
+        if m_row is None:
+            return 1e-7 * abs(x) + 1e-12
+        if abs(m_row) < 1e-6:
+            return None
+        return abs(x) * (3.0 * atol_m / abs(m_row) + 1e-7) + 1e-12
+
+    def check(tbl, lab, name, col, x, y, m_row):
+        if y == "absent":
+            diffs.append((tbl, name, lab, x, "row/column missing in rewritten net"))
+            return
+        if x is None or y is None:
+            if x is not y:
+                diffs.append((tbl, name, lab, x, y))
+            return
+        t = tol_of(col, x, m_row)
+        if t is not None and tbl == "res_pipe":
+            t += round_pipe.get(col, 0.0) * (max(sections0.get(lab, 1), 1) if name.endswith("consistency") else 1)
+        if t is not None and not (x == y or abs(x - y) <= t):
+            diffs.append((tbl, name, lab, x, y))
+
     for tbl in sorted(r0):
         if tbl in skip:
             continue
         name = tbl[4:]
         cols = r0[tbl]["cols"]
+        paired = {}
+        for a, b, sg in PAIRS:
+            paired[a] = (b, sg)
+            paired[b] = (a, sg)
         for lab in r0[tbl]["index"]:
             lab1 = row_map.get(name, {}).get(lab, lab)
             if lab1 is None:
                 continue
             is_rev = lab in rev.get(name, ())
             pieces = series.get(lab) if name == "pipe" else None
-            pairs = []
-            for col in NODE_COLS + OTHER:
-                if col in cols:
-                    l1 = pieces[-1] if (pieces and col == "t_outlet_k") else lab1
-                    pairs.append((col, col, l1))
-            for a, b in FROM_TO:
-                if a in cols:
-                    pairs.append((a, b if is_rev else a, lab1))
-                    pairs.append((b, a if is_rev else b, pieces[-1] if pieces else lab1))
-            for col0, col1, l1 in pairs:
-                x, y = _get(r0, tbl, col0, lab), _get(r1, tbl, col1, l1)
-                if y == "absent":
-                    diffs.append((tbl, col0, lab, x, "row/column missing in rewritten net"))
+            m_row = _get(r0, tbl, "mdot_from_kg_per_s", lab)
+            m_row = None if m_row in ("absent", None) else m_row
+            backward = m_row is not None and m_row < 0
+            for col in sorted(cols):
+                x = _get(r0, tbl, col, lab)
+                if isinstance(x, str):
                     continue
-                if col0 in PRESSURE_COLS and x is not None and y is not None:
-                    y = y - c
-                if _differs(x, y, atol_m if col0 in MASS_COLS else atol_t if col0 in TEMP_COLS else atol):
-                    diffs.append((tbl, col0 + ("<->" + col1 if col0 != col1 else ""), lab, x, y))
+                col1, sg, l1 = col, 1.0, lab1
+                if col in paired:
+                    if is_rev:
+                        col1, sg = paired[col]
+                    if pieces:
+                        is_from = any(col == a for a, _, _ in PAIRS)
+                        l1 = pieces[0] if is_from else pieces[-1]
+                elif is_rev and (col in ODD or (col == DPF and not gas)):
+                    sg = -1.0
+                if pieces and col == "t_outlet_k":
+                    l1 = pieces[0] if backward else pieces[-1]       # the piece at the outlet in flow direction
+                if pieces and col in MEAN_COLS:
+                    ys = [_get(r1, tbl, col, pc) for pc in pieces]
+                    y = "absent" if any(v == "absent" for v in ys) else None if any(v is None for v in ys) \
+                        else sum(ys) / len(ys)
+                elif col == DPF and name == "pipe" and (pieces or sections0.get(lab, 1) != sections1.get(lab1, 1)):
+                    # friction loss of the element: the rewritten description is the sum over its pieces / its one
+                    # section; the code reports the mean over the sections of a pipe
+                    ys = [_get(r1, tbl, col, pc) for pc in (pieces or [lab1])]
+                    n0 = sections0.get(lab, 1)
+                    n1 = 1 if pieces else sections1.get(lab1, 1)
+                    if any(v == "absent" or v is None for v in ys) or x is None:
+                        y = "absent" if any(v == "absent" for v in ys) else None
+                    else:
+                        check(tbl, lab, DPF + "_mean_consistency", col, x * n0, sg * sum(ys) * n1, m_row)
+                        y = sum(ys)
+                else:
+                    y = _get(r1, tbl, col1, l1)
+                if y not in ("absent", None):
+                    y = sg * y
+                    if KIND.get(col) == "p":
+                        y = y - c
+                check(tbl, lab, col + ("<->" + col1 if col1 != col else ""), col, x, y, m_row)
             if pieces:   # every piece carries the same mass flow; inner pressures are those of a chain
-                m = _get(r0, tbl, "mdot_from_kg_per_s", lab)
                 for pc in pieces:
                     y = _get(r1, tbl, "mdot_from_kg_per_s", pc)
-                    if y == "absent" or _differs(m, y, atol_m):
-                        diffs.append((tbl, "mdot_from_kg_per_s(piece %s)" % pc, lab, m, y))
+                    if y == "absent" or _differs(m_row, y, atol_m):
+                        diffs.append((tbl, "mdot_from_kg_per_s(piece %s)" % pc, lab, m_row, y))
     return diffs
 
 
